@@ -379,6 +379,30 @@ def flow_case(case, counters, viol, nontrivial):
             viol.append({"mech": f"C13/flow-density-changed/{backend}", "detail": f"{where}: max |dlog_prob| {np.max(np.abs(l1-l2)):.3g}"})
         if width_of(flow2.log_prob(xs)) != width_of(flow.log_prob(xs)):
             viol.append({"mech": f"C13/flow-dtype-changed/{backend}", "detail": f"{where}: {width_of(flow.log_prob(xs))}->{width_of(flow2.log_prob(xs))}"})
+        # writing is not a one-shot operation: the same object written again (another group, another file) and a reloaded
+        # flow written and reloaded once more must still be the same density
+        path2 = tmpfile("f2.h5")
+        try:
+            with h5py.File(path, "a") as f:
+                flow.save(f, path="flow_again")
+            with h5py.File(path2, "w") as f:
+                flow.save(f, path="flow")
+                flow2.save(f, path="second_generation")
+            again = []
+            with h5py.File(path, "r") as f:
+                again.append(("same object, second group", F.load(f, path="flow_again")))
+            with h5py.File(path2, "r") as f:
+                again.append(("same object, second file", F.load(f, path="flow")))
+                again.append(("reloaded flow written and reloaded again", F.load(f, path="second_generation")))
+            for label, fl in again:
+                counters["flow_repeated_writes"] += 1
+                lk = np.asarray(to_np(fl.log_prob(xs)), dtype=float)
+                if not np.allclose(l1, lk, rtol=1e-4 if f32 else 1e-11, atol=1e-4 if f32 else 1e-11) or type(fl.data_transform) is not type(flow.data_transform):
+                    viol.append({"mech": f"C13/flow-density-changed-on-repeated-write/{backend}", "detail": f"{where}: {label}: max |dlog_prob| {np.max(np.abs(l1-lk)):.3g}, data transform {type(fl.data_transform).__name__} (written: {type(flow.data_transform).__name__})"})
+        except Exception as exc:  # noqa: BLE001
+            viol.append({"mech": f"C13/flow-repeated-write-raises/{backend}", "detail": f"{where}: {type(exc).__name__}: {str(exc)[:200]}"})
+        finally:
+            rm_tmp(path2)
         if backend == "flowjax":
             d1 = np.asarray(to_np(flow.sample_and_log_prob(5)[0]), dtype=float)
             d2 = np.asarray(to_np(flow2.sample_and_log_prob(5)[0]), dtype=float)
